@@ -37,6 +37,10 @@ TRUSTED = [
     "scipy.linalg.solve_discrete_lyapunov and numpy.linalg.eigvals are contracts: the recorded Lyapunov solution is "
     "checked against the model's companion system in exact arithmetic on every case, the reported eigenvalues against "
     "the exact characteristic polynomial of the model's companion matrix",
+    "what is reported about the spectrum: the reduction of the eigenvalue array to max_abs_eigenvalue and the stability test "
+    "are regenerated (typed: numpy.abs / numpy.max on complex / real arrays) into gen_max_abs_eigenvalue / gen_is_stable, "
+    "model/Spectral.v is defined in terms of them; the caching properties, _number_from_numpy and the RedVAR accessors must "
+    "have the modelled text (fail closed); the executable instance uses squared moduli over bigQ (order embedding proved)",
     "Dataslate construction (databox -> array, fallback of missing residuals to 0, array -> databox), the lag stacking, the "
     "mask, the prior dummy arrays, the companion matrices and the simulation loop are hand-modelled and tied by the "
     "correspondence (bit-exact for stacking / mask / OLS inputs, 1e-7 tolerance against exact rationals otherwise)",
@@ -65,13 +69,17 @@ MANIFEST = {
                   "i*n+v of the lag stack is lag i+1 of variable v; simulating any (A,B,c) with the residuals the model stores "
                   "reproduces the data (induction over periods on the companion recursion); (I - sum A_i) mean = c and the mean is "
                   "the rest point; the companion matrix acts as the stacked recursion and its eigenvectors are exactly the "
-                  "geometric lag stacks; autocovariances are blocks of T^j Omega with Gamma_0 = A Omega A' + Sigma.",
+                  "geometric lag stacks; autocovariances are blocks of T^j Omega with Gamma_0 = A Omega A' + Sigma; the reported "
+                  "maximum modulus is attained by an eigenvalue and bounds all of them (spectral radius, independent of the order "
+                  "of the eigenvalues) and the stability verdict is 'stable' iff every eigenvalue has modulus < 1, for every list of "
+                  "eigenvalues over any totally pre-ordered type of moduli.",
     "level_note": "Partial: numpy.linalg.solve, the Lyapunov solver and eigvals are contracts (hypotheses); rounding is outside "
                   "(tolerance tie); the dataslate plumbing, stacking loop and simulate_flat loop are tied by correspondence only. "
                   "Trusted: Coq kernel + vm_compute, Bignums, translator/redvar.py, harness. No axioms (all theorems closed).",
 }
 
 TOL = 1e-7
+STAB_MARGIN = 1e-9          # the stability verdict is not compared when the spectral radius is this close to 1
 FREQ_START = {1: (1950, 2050), 2: (3900, 4100), 4: (7800, 8200), 12: (23500, 24500), 365: (720000, 740000), 0: (-50, 500)}
 
 
@@ -249,9 +257,35 @@ def prepare_target(spec, db, ynames, xnames):
     return work
 
 
+def warm_up(spec, model, span):
+    """spec["warm"]: the SAME model object has been estimated before on other data (the observations of the endogenous
+    variables shifted by a deterministic pattern) and its accessors have been read, so that whatever an estimation
+    caches (eigenvalues, maximum modulus, companion matrix) is populated when the estimation under test starts."""
+    if not spec.get("warm"):
+        return
+    data = {}
+    for idx, (nm, rows) in enumerate(spec["data"].items()):
+        if nm.startswith("y"):
+            data[nm] = [[(v + ((7 * t + 3 * idx) % 5 - 2)) if isinstance(v, (int, float)) else v for v in r]
+                        for t, r in enumerate(rows)]
+        else:
+            data[nm] = rows
+    db2 = build(dict(spec, data=data))[0]
+    kw = {"num_variants": spec["nv"]} if not (spec.get("nv_in_ctor") or spec["nv"] == 1) else {}
+    try:
+        with np.errstate(all="ignore"):
+            model.estimate(db2, span, **kw)
+            for get in (model.get_eigenvalues, model.get_max_abs_eigenvalue, model.get_stability, model.get_mean,
+                        model.get_companion_matrices):
+                get(unpack_singleton=False)
+    except Exception:  # noqa  (the earlier estimation is not the one under test)
+        pass
+
+
 def estimate(spec):
     """The whole call sequence of a spec through the public API: (db, span, model, estimate output)."""
     db, span, model, ynames, xnames = build(spec)
+    warm_up(spec, model, span)
     kw = estimate_kwargs(spec)
     target = prepare_target(spec, db, ynames, xnames)
     if target is not None:
@@ -262,7 +296,8 @@ def estimate(spec):
 def repro_text(spec) -> str:
     return ("import json; from harness import C18; spec = json.load(open(REPLAY))['failure']['input']['spec']; "
             "db, span, model, out = C18.estimate(spec); sim = model.simulate(out, span)   "
-            "# spec['pre'] = earlier estimations written into the target databox first")
+            "# spec['pre'] = earlier estimations written into the target databox first; spec['warm'] = the model object was "
+            "estimated on other data before (C18.warm_up)")
 
 
 # ====================================================================== implementation run with recorders
@@ -309,6 +344,7 @@ def run_impl(spec) -> dict:
     except Exception as e:  # noqa
         return {"error": _exc("build", e)}
     acc = acc_error = sim = sim_error = None
+    warm_up(spec, model, span)
     kw = estimate_kwargs(spec)
     try:
         target = prepare_target(spec, db, ynames, xnames)
@@ -329,10 +365,17 @@ def run_impl(spec) -> dict:
             return {"error": _exc("get_system_matrices", e)}
         try:
             with np.errstate(all="ignore"):
-                acc = {"mean": model.get_mean(unpack_singleton=False),
+                # the verdict and the maximum are read BEFORE the eigenvalues: whatever they cache is then not refreshed
+                # by a later accessor
+                acc = {"stable": model.get_stability(unpack_singleton=False),
+                       "maxabs": model.get_max_abs_eigenvalue(unpack_singleton=False),
+                       "mean": model.get_mean(unpack_singleton=False),
                        "eig": model.get_eigenvalues(unpack_singleton=False),
                        "acov": model.get_acov(up_to_order=2, unpack_singleton=False),
                        "comp": model.get_companion_matrices(unpack_singleton=False)}
+            for key_ in ("mean", "eig", "acov", "comp", "maxabs", "stable"):
+                if len(acc[key_]) != nv:
+                    raise RuntimeError(f"{len(acc[key_])} entries of {key_} for {nv} variants")
             acc["lyap"] = [ev[1] for ev in events[n_est:] if ev[0] == "lyap"]
             if len(acc["lyap"]) != nv:
                 raise RuntimeError(f"{len(acc['lyap'])} Lyapunov solutions recorded for {nv} variants")
@@ -381,6 +424,7 @@ def run_impl(spec) -> dict:
                     "T": np.array(acc["comp"][v].T, dtype=float), "P": np.array(acc["comp"][v].P, dtype=float),
                     "K": np.array(acc["comp"][v].K, dtype=float), "Om": acc["lyap"][v],
                     "acov": [np.array(a, dtype=float) for a in acc["acov"][v]],
+                    "maxabs": acc["maxabs"][v], "stable": acc["stable"][v],
                 }
             if sim is not None:
                 ov["sim"] = np.vstack([_variant_col(sim[nm].get_data(long_span), v) for nm in ynames])
@@ -489,8 +533,18 @@ def coq_check(spec, v, out_v) -> str:
         else:
             a = o["acc"]
             poly = np.real(np.poly(a["eig"])) if len(a["eig"]) else np.array([1.0])
+            eigs = "[" + "; ".join(f"({coq_v(z.real)}, {coq_v(z.imag)})" for z in a["eig"].tolist()) + "]"
+            maxabs = a["maxabs"]
+            if not isinstance(maxabs, (int, float)) or isinstance(maxabs, bool):
+                maxabs = None                                  # rendered as nan: never close to the model's value
+            if not isinstance(a["stable"], (bool, np.bool_)):
+                stable = "(Some false)" if maxabs is not None and maxabs < 1 else "(Some true)"   # not a verdict: flagged
+            elif maxabs is not None and abs(maxabs - 1.0) < STAB_MARGIN:
+                stable = "None"
+            else:
+                stable = f"(Some {'true' if a['stable'] else 'false'})"
             afields = [coq_mx(a["mean"], n), coq_vec(poly.tolist()), coq_mx(a["T"]), coq_mx(a["P"]), coq_mx(a["K"]),
-                       coq_mx(a["Om"]), "[" + ";\n    ".join(coq_mx(g) for g in a["acov"]) + "]"]
+                       coq_mx(a["Om"]), "[" + ";\n    ".join(coq_mx(g) for g in a["acov"]) + "]", eigs, coq_v(maxabs), stable]
             acc = "Some (mkAcc\n    " + "\n    ".join(par(f) for f in afields) + ")"
         sim = "None" if (o["sim"] is None or has_inf(spec)) else f"Some {coq_mx(o['sim'], n)}"
         fields = [
@@ -517,7 +571,8 @@ Definition tol : bigQ := BigQ.Qq (BigZ.of_Z 1) (BigN.of_N 10000000).
 
 CODES = {1: "lag stacking", 2: "complete-column mask", 3: "fitted periods", 4: "OLS inputs", 5: "A", 6: "B", 7: "c",
          8: "residuals", 9: "covariance", 10: "mean", 11: "eigenvalues", 12: "companion matrices",
-         13: "Lyapunov solution", 14: "autocovariances", 15: "simulation", 90: "model: no data, impl: estimate",
+         13: "Lyapunov solution", 14: "autocovariances", 15: "simulation", 16: "max abs eigenvalue",
+         17: "stability verdict", 90: "model: no data, impl: estimate",
          91: "model: estimate, impl: no data"}
 
 
@@ -595,11 +650,13 @@ def property_checks(spec, res, first_only=False) -> list[Failure]:
     shape = f"n={n},m={m},order={p},intercept={spec['intercept']},dof={spec['dof']},priors={len(spec['priors'])}"
 
     tag = ":target_db" if uses_target(spec) else ""
+    if spec.get("warm"):
+        shape += ",model object estimated before on other data"
     if spec.get("pre"):
         shape += f",target_db after {len(spec['pre'])} earlier estimation(s) of order " + "/".join(str(st["p"]) for st in spec["pre"])
 
-    def fail(key, what, observed=None, required=None, v=0):
-        fails.append(Failure(key + tag, f"{what} [{shape}, variant {v}]", {"spec": spec, "variant": v}, observed, required,
+    def fail(key, what, observed=None, required=None, v=0, tagged=True):
+        fails.append(Failure(key + (tag if tagged else ""), f"{what} [{shape}, variant {v}]", {"spec": spec, "variant": v}, observed, required,
                              repro_text(spec)))
 
     if "error" in res:
@@ -673,6 +730,15 @@ def property_checks(spec, res, first_only=False) -> list[Failure]:
             if len(ev) != np_ or np.max(np.abs(np.poly(ev) - np.poly(ref))) > 1e-7 * (1 + np.max(np.abs(np.poly(ref)))):
                 fail("eigenvalues", "reported eigenvalues are not those of the companion matrix", [str(z) for z in ev],
                      [str(z) for z in ref], v)
+            # the reported maximum modulus is the spectral radius of the companion matrix, the verdict is rho < 1
+            mx_ = a.get("maxabs")
+            if not isinstance(mx_, (int, float)) or isinstance(mx_, bool) or not abs(mx_ - rho) <= 1e-9 * (1 + rho):
+                fail("max_abs_eigenvalue", "reported maximum modulus of the eigenvalues is not the spectral radius of the "
+                     "companion matrix", repr(mx_), float(rho), v, tagged=False)
+            if abs(rho - 1.0) >= 1e-7 and (not isinstance(a.get("stable"), (bool, np.bool_))
+                                           or bool(a["stable"]) != bool(rho < 1)):
+                fail("stability", f"reported stability contradicts the companion matrix (spectral radius {rho:.9g})",
+                     repr(a.get("stable")), bool(rho < 1), v, tagged=False)
             if rho < 0.98:
                 Sg = np.zeros((np_, np_)); Sg[:n, :n] = cov
                 Om = np.linalg.solve(np.eye(np_ * np_) - np.kron(T, T), Sg.reshape(-1)).reshape(np_, np_)
@@ -710,7 +776,7 @@ def property_checks(spec, res, first_only=False) -> list[Failure]:
 def _tolerance_confirmed(spec, res, codes) -> bool:
     """A tolerance disagreement is reported only if it is not explained by conditioning (property residual fine
     and the normal equations ill-conditioned)."""
-    if not set(codes) <= {5, 6, 7, 8, 9, 10, 11, 12, 13, 14, 15}:
+    if not set(codes) <= {5, 6, 7, 8, 9, 10, 11, 12, 13, 14, 15, 16}:
         return True
     if property_checks(spec, res):
         return True
@@ -783,7 +849,8 @@ def correspondence(ctx) -> CorrResult:
                 "target databox that already holds the residuals of 1-2 earlier estimations with another order / intercept / "
                 "prior / sample); evaluation = one variant driven through "
                 "RedVAR(...).estimate, get_system_matrices/get_mean/get_eigenvalues/get_acov/get_companion_matrices, "
-                "simulate; 15 compared components each; non-trivial = the estimate succeeded; distinct = distinct spec text")
+                "get_max_abs_eigenvalue/get_stability, simulate; 17 compared components each (16: the model's spectral radius of "
+                "the reported eigenvalues, as exact (re, im) pairs, vs the reported maximum modulus; 17: the stability verdict); non-trivial = the estimate succeeded; distinct = distinct spec text")
     res.samples = [{"spec": {k_: v_ for k_, v_ in s.items() if k_ != "data"}, "variant": v,
                     "impl": None if o is None else {"A": o["A"].tolist(), "fitted": o["fitted"]}}
                    for s, v, o in items[:3]]
@@ -882,6 +949,137 @@ def noise_free_check(spec, beta) -> list[Failure]:
     return out
 
 
+def _pick_roots(rng, count, allow_complex=True):
+    """`count` roots (closed under conjugation) with a designated dominant one: (roots, rho, kind).  The dominant root is
+    a negative real number, a complex pair or a positive real number, inside (rho <= 0.95) or outside (rho >= 1.05) the
+    unit circle; the other roots have a smaller modulus and, where possible, a LARGER real part than the dominant one."""
+    kinds = ["negative", "negative", "positive"] + (["complex", "complex"] if allow_complex and count >= 2 else [])
+    kind = rng.choice(kinds)
+    rho = rng.choice([0.5, 0.625, 0.75, 0.875, 0.9375, 1.0625, 1.125, 1.25])
+    if kind == "negative":
+        roots = [complex(-rho, 0.0)]
+    elif kind == "positive":
+        roots = [complex(rho, 0.0)]
+    else:
+        re_ = rng.choice([-0.5, -0.25, 0.0, 0.125, 0.25]) * rho
+        im_ = math.sqrt(rho * rho - re_ * re_)
+        roots = [complex(re_, im_), complex(re_, -im_)]
+    while len(roots) < count:
+        r_ = rng.choice([0.25, 0.375, 0.5, 0.625, 0.75]) * rho
+        if count - len(roots) >= 2 and allow_complex and rng.random() < 0.3:
+            ang = rng.choice([0.25, 0.5, 0.75]) * math.pi
+            roots += [complex(r_ * math.cos(ang), r_ * math.sin(ang)), complex(r_ * math.cos(ang), -r_ * math.sin(ang))]
+        else:
+            roots.append(complex(r_ if rng.random() < 0.8 else -r_, 0.0))
+    return roots, rho, kind
+
+
+def gen_from_roots(rng, noise_free=None) -> tuple[dict, np.ndarray, dict]:
+    """A VAR(p) in n variables constructed from chosen companion eigenvalues (an oscillating VAR: the root of largest
+    modulus is negative or a complex pair, or the usual positive one), mixed by an integer matrix of determinant 1,
+    and data generated by it: noise-free (then the estimate must be that VAR) or with noise."""
+    n = rng.choice([1, 2, 2, 3])
+    p = rng.choice([1, 2, 2, 3])
+    m = rng.choice([0, 1, 1, 2])
+    intercept = rng.random() < 0.6
+    noise_free = (rng.random() < 0.5) if noise_free is None else noise_free
+    if noise_free and m == 0:
+        m = 1                                   # exogenous excitation keeps the noise-free regressors of full rank
+    k = int(intercept)
+    np_ = n * p
+    if p == 1:
+        # y = S z, z_t = D z_{t-1}: D block diagonal with 1x1 blocks (real roots) and 2x2 rotation blocks (complex pairs)
+        roots, rho, kind = _pick_roots(rng, n, allow_complex=n >= 2)
+        D = np.zeros((n, n)); i = 0; used = []
+        rr = list(roots)
+        while rr:
+            z = rr.pop(0)
+            if z.imag != 0.0:
+                rr.remove(z.conjugate())
+                D[i:i + 2, i:i + 2] = [[z.real, -abs(z.imag)], [abs(z.imag), z.real]]; i += 2
+            else:
+                D[i, i] = z.real; i += 1
+        blocks = [D]
+    else:
+        # n scalar AR(p) processes, the first one carries the dominant root; lag polynomial from the roots
+        roots, rho, kind = [], None, None
+        cols = []
+        for v in range(n):
+            if v == 0:
+                rv, rho, kind = _pick_roots(rng, p)
+            else:
+                rv, rho_v, _ = _pick_roots(rng, p)
+                rv = [z * (0.75 * rho / rho_v) for z in rv]            # strictly smaller moduli than the dominant root
+            roots += rv
+            cols.append(-np.real(np.poly(rv))[1:])                      # a_1 .. a_p
+        blocks = [np.diag([cols[v][i] for v in range(n)]) for i in range(p)]
+    S = np.eye(n)
+    for _ in range(rng.choice([0, 1, 2]) if n > 1 else 0):               # integer shears: determinant 1, integer inverse
+        i, j = rng.sample(range(n), 2)
+        E = np.eye(n); E[i, j] = rng.choice([-1.0, 1.0])
+        S = S @ E
+    Sinv = np.linalg.inv(S)
+    A = np.hstack([S @ Bk @ Sinv for Bk in blocks])
+    r = np_ + m + k
+    N = r + rng.randint(3, 7) if noise_free else r + rng.randint(6, 14)
+    B = np.array([[rng.randint(-4, 4) / 2.0 for _ in range(m)] for _ in range(n)]).reshape(n, m)
+    c = np.array([rng.randint(-4, 4) / 2.0 if intercept else 0.0 for _ in range(n)])
+    X = np.array([[float(rng.randint(-6, 6)) for _ in range(p + N)] for _ in range(m)]).reshape(m, p + N)
+    Y = np.zeros((n, p + N))
+    Y[:, :p] = [[float(rng.randint(-6, 6)) for _ in range(p)] for _ in range(n)]
+    for t in range(p, p + N):
+        lags = np.concatenate([Y[:, t - i] for i in range(1, p + 1)])
+        Y[:, t] = A @ lags + B @ X[:, t] + c
+        if not noise_free:
+            Y[:, t] += [rng.randint(-64, 64) / 64.0 for _ in range(n)]
+    data = {f"y{i}": [[float(v)] for v in Y[i]] for i in range(n)}
+    data.update({f"x{i}": [[float(v)] for v in X[i]] for i in range(m)})
+    freq = rng.choice([1, 4, 12, 0])
+    spec = {"n": n, "m": m, "p": p, "intercept": intercept, "dof": rng.random() < 0.5, "omit_missing": True, "nv": 1,
+            "freq": freq, "start": rng.randint(*FREQ_START[freq]), "N": N, "data": data, "priors": [],
+            "interpret_span": "short", "nv_in_ctor": True, "warm": rng.random() < 0.4}
+    beta = np.hstack([A, B, c.reshape(n, 1)[:, :k]])
+    meta = {"roots": [[z.real, z.imag] for z in roots], "rho": rho, "dominant": kind, "noise_free": bool(noise_free)}
+    return spec, beta, meta
+
+
+def roots_check(spec, beta, meta) -> list[Failure]:
+    """The property on a VAR built from chosen roots: everything property_checks states (in particular the reported
+    eigenvalues / maximum modulus / stability against the companion matrix of the estimate) and, on noise-free data,
+    that the VAR returned - hence its spectral radius and its stability verdict - is the generating one."""
+    res = run_impl(spec)
+    out = property_checks(spec, res)
+    if "error" in res or not meta["noise_free"]:
+        return out
+    n, m = spec["n"], spec["m"]
+    o = res["variants"][0]
+    *_, R, w = np_stack(spec, 0)
+    cond = np.linalg.cond(R[:, w] @ R[:, w].T)
+    if not cond < 1e8 or not coefficients_finite(o):
+        return out
+    inp = {"spec": spec, "variant": 0, "beta": beta.tolist(), "meta": meta}
+    c = np.zeros((n, 0)) if o["c"] is None else o["c"].reshape(n, 1)
+    got = np.hstack([o["A"], o["B"].reshape(n, m), c])
+    scale_ = 1.0 + float(np.max(np.abs(beta)))
+    if got.shape != beta.shape or not np.max(np.abs(got - beta)) <= (1e-15 * cond * 1e2 + 1e-9) * scale_:
+        out.append(Failure("noise_free", "noise-free data generated by a VAR do not return that VAR", inp, got.tolist(),
+                           beta.tolist(), repro_text(spec)))
+        return out
+    if o["acc"] is not None:
+        rho = meta["rho"]
+        mx_ = o["acc"].get("maxabs")
+        if not isinstance(mx_, (int, float)) or not abs(mx_ - rho) <= 1e-4 * (1 + rho):
+            out.append(Failure("noise_free:max_abs_eigenvalue",
+                               f"noise-free data generated by a VAR with spectral radius {rho} (dominant root: {meta['dominant']}) "
+                               "return another maximum modulus of the eigenvalues", inp, repr(mx_), rho, repro_text(spec)))
+        if bool(o["acc"].get("stable")) != bool(rho < 1):
+            out.append(Failure("noise_free:stability",
+                               f"noise-free data generated by a VAR with spectral radius {rho} (dominant root: {meta['dominant']}) "
+                               "return the wrong stability verdict", inp, repr(o["acc"].get("stable")), bool(rho < 1),
+                               repro_text(spec)))
+    return out
+
+
 def falsify(ctx, hints):
     rng = ctx.rng
     fails: list[Failure] = []
@@ -907,6 +1105,16 @@ def falsify(ctx, hints):
         fails += noise_free_check(spec, beta)
         if len(fails) > 80:
             break
+    info["from_roots"] = 0
+    info["dominant_root"] = {}
+    for it in range(ctx.scale(80, 1500)):
+        spec, beta, meta = gen_from_roots(rng)
+        info["from_roots"] += 1
+        tag = f"{meta['dominant']}:{'outside' if meta['rho'] > 1 else 'inside'}:{'noise-free' if meta['noise_free'] else 'noisy'}"
+        info["dominant_root"][tag] = info["dominant_root"].get(tag, 0) + 1
+        fails += roots_check(spec, beta, meta)
+        if len(fails) > 100:
+            break
     seen, uniq = set(), []
     for f_ in fails:
         if f_.key not in seen:
@@ -922,7 +1130,9 @@ def replay(ctx, failure: dict):
     spec = inp.get("spec")
     if spec is None:
         return None
-    if failure["key"].startswith("noise_free"):
+    if "meta" in inp:
+        fs = roots_check(spec, np.array(inp["beta"], dtype=float), inp["meta"])
+    elif failure["key"].startswith("noise_free"):
         fs = noise_free_check(spec, np.array(inp["beta"], dtype=float))
     else:
         fs = property_checks(spec, run_impl(spec))
